@@ -30,6 +30,7 @@ def main():
             r = subprocess.run(["git", "-C", wt, "apply", os.path.join(d, "patch.diff")], capture_output=True, text=True)
             if r.returncode != 0:
                 rows.append((n, prop, "PATCH DOES NOT APPLY to HEAD: " + r.stderr.strip()[:120]))
+                print(rows[-1], flush=True)
                 continue
             env = dict(os.environ, TULZ_REPO=wt, VERIF_EVIDENCE_DIR=ev)
             p = subprocess.run([sys.executable, os.path.join(VERIF, "tools", "check.py"), prop], cwd=VERIF, env=env, capture_output=True, text=True)
